@@ -251,6 +251,44 @@ def roundtrip(_):
     return problems
 
 
+GEN_LOC = 'https://sp.verif.example/acs/gen%d'
+
+
+def gen_case(case):
+    """MdGen.tla: endpoints as configured -> generated metadata -> what a store that loads it hands back"""
+    from saml2_tophat.metadata import entity_descriptor
+    from saml2_tophat.mdstore import MetadataStore
+    import xml.etree.ElementTree as ET
+    scn = case['scn']
+    bmap = {'post': env.BINDING_POST, 'redirect': env.BINDING_REDIRECT}
+    acs = []
+    for k, e in enumerate(scn['layout']):
+        if e['idx'] == 'none':
+            acs.append((GEN_LOC % (k + 1), bmap[e['b']]))
+        else:
+            acs.append((GEN_LOC % (k + 1), bmap[e['b']], int(e['idx']) if scn['form'] == 'int' else e['idx']))
+    out = {'exc': None, 'doc': None, 'store': None}
+    try:
+        sp = spc.sp_for(endpoints={'assertion_consumer_service': acs})
+        text = str(entity_descriptor(sp.config))
+        root = ET.fromstring(text)
+        brev = dict((v, k) for k, v in bmap.items())
+        out['doc'] = [[brev.get(x.get('Binding')), x.get('Location'), x.get('index')]
+                      for x in root.iter('{urn:oasis:names:tc:SAML:2.0:metadata}AssertionConsumerService')]
+        mds = MetadataStore(sp.config.attribute_converters, sp.config)
+        mds.load('inline', text)
+        got = {}
+        for b in ('post', 'redirect'):
+            try:
+                got[b] = [[s['location'], s.get('index')] for s in mds.assertion_consumer_service(sp.config.entityid, bmap[b])]
+            except Exception as exc:
+                got[b] = '!%s' % type(exc).__name__
+        out['store'] = got
+    except Exception as exc:
+        out['exc'] = '%s: %s' % (type(exc).__name__, str(exc)[:160])
+    return out
+
+
 def main():
     chk = fw.Check('C16', 'model_checking')
     res = tlc.run('MdStore.tla', 'MdStore.cfg', timeout=900)
@@ -284,11 +322,44 @@ def main():
         chk.count({'roundtrip': 1})
         for p in problems:
             chk.violation({'kind': 'roundtrip', 'what': p}, 'configuration -> metadata -> store round trip differs: %s' % p, {'problem': p})
+    gen = tlc.run('MdGen.tla', 'MdGen.cfg', timeout=600)
+    chk.add_tlc(gen, 'MdGen.cfg')
+    if gen.violated:
+        raise fw.Machinery('MdGen.tla violates its contract: %s' % gen.violated)
+    gcases = sorted(gen.cases, key=lambda c: json.dumps(c['scn'], sort_keys=True))
+    for case, out, err in fw.pmap(gen_case, gcases, init=spc.init_worker, chunk=16):
+        if err:
+            raise fw.Machinery(err)
+        scn = case['scn']
+        chk.count({'gen': scn})
+        layout = scn['layout']
+        detail = {'case': case, 'observed': out}
+        want = [[e['b'], GEN_LOC % (k + 1), None if e['idx'] == 'none' else e['idx']] for k, e in enumerate(layout)]
+        problem = None
+        if out['exc']:
+            problem = 'metadata generation / loading fails: %s' % out['exc']
+        else:
+            doc = out['doc']
+            if [d[:2] for d in doc] != [w[:2] for w in want]:
+                problem = 'generated metadata lists %s for configured %s' % (doc, want)
+            else:
+                for d, w in zip(doc, want):
+                    if w[2] is not None and d[2] != w[2]:
+                        problem = 'endpoint %s configured with index %s appears with index %s' % (w[1], w[2], d[2])
+                for b in ('post', 'redirect'):
+                    via = [d[1:] for d in doc if d[0] == b]
+                    if via and out['store'][b] != via:
+                        problem = problem or 'store hands back %s for %s, the generated metadata says %s' % (out['store'][b], b, via)
+        if problem:
+            chk.violation({'gen': json.dumps(scn, sort_keys=True)}, 'configuration -> metadata: %s (%s)' % (problem, json.dumps(scn, sort_keys=True)), detail)
+        elif [d[2] for d in out['doc']] != [m['idx'] for m in case['model']]:
+            chk.note('drift: generated indexes %s, model %s' % ([d[2] for d in out['doc']], [m['idx'] for m in case['model']]))
     chk.cov['exhaustive'] = True
     chk.cov['rule'] = ('all scenarios of MdStore.tla (validUntil of document and entity absent / future / past / past written with a numeric offset x signature none/valid/'
                       'invalid/wrapped x verification certificate configured x duplicate declaration in a second source x load order), '
                       'each with every query of the universe (5 services x 3 bindings, certs x 4 roles x 2 uses, entity categories, attribute requirements; 4 '
-                      'entities incl. an unknown one); distinct = distinct (scenario, query)')
+                      'entities incl. an unknown one); distinct = distinct (scenario, query); plus all scenarios of MdGen.tla (1-3 consumer endpoints x binding x '
+                      'configured index none/0/1/5 x index written as number or text): configuration -> generated metadata -> store')
     chk.assumptions = list(fw.TOOL_ASSUMPTIONS) + ['remote sources are served by a fake HTTP object handed to the store']
     sb.cleanup()
     return chk.finish()
